@@ -20,6 +20,8 @@ if [ -z "$SKIP_CONFIRM" ]; then
   echo "== build + suite WITH patch (expect pass)"
   go build ./... 2>&1 | tail -3
   go test -vet=off -count=1 ./... > /tmp/confirm_$$.suite 2>&1; r1=$?
+  # TestRateLimiterInadequate (timer race in x/time/rate, no library code) flakes under machine load: retry
+  for try in 2 3; do [ $r1 -eq 0 ] && break; grep -q "FAIL: TestRateLimiterInadequate" /tmp/confirm_$$.suite || break; echo "(suite retry $try: TestRateLimiterInadequate flaked)"; go test -vet=off -count=1 ./... > /tmp/confirm_$$.suite 2>&1; r1=$?; done
   grep -v "no test files" /tmp/confirm_$$.suite | tail -12
   cp $src/verif_demo_test.go $wt/$pkg/
   echo "== demo WITH patch (expect fail)"; demo 10; r2=$(cat /tmp/confirm_$$.rc)
